@@ -76,6 +76,10 @@ def strip_state(calls):
     return [c.split(" @")[0] for c in calls]
 
 
+def render_frames_list(calls):
+    return frames_of(calls)
+
+
 def frames_of(calls):
     res = []
     for c in strip_state(calls):
